@@ -83,6 +83,9 @@ def gen(seed):
 
 
 def directed(tier, base_seed):
+    from .. import stubval
+    for spec in stubval.specs(gen, base_seed, 60 if tier == 'thorough' else 6):
+        yield spec
     kmax = 4 if tier == 'thorough' else 3
     nworlds = 6 if tier == 'thorough' else 2
     for wi in range(nworlds):
@@ -117,6 +120,9 @@ def outcome_map(T):
 
 
 def run(spec, ctx):
+    if spec.get('stubval'):
+        from .. import stubval
+        return stubval.run(spec, ctx, ID)
     src = W.materialise(spec['world'], ctx.scratch)
     m = W.Model(spec['world'])
     opt = spec['opt']
